@@ -15,7 +15,7 @@ func runSubjects(c *eng.Ctx, cc caseCfg, subs []*subject) {
 	for n := range names {
 		l = append(l, n)
 	}
-	c.Sample(map[string]any{"group": cc.Group, "params": cc.P, "constructors": l, "subjects": len(subs)})
+	c.Sample(map[string]any{"group": cc.Group, "params": cc.P.sample(), "constructors": l, "subjects": len(subs), "variant": cc.Var})
 	for _, s := range subs {
 		s := s
 		c.Try(sigOf(s.Ctor, "run"), func() { runSubject(c, s) })
@@ -24,7 +24,7 @@ func runSubjects(c *eng.Ctx, cc caseCfg, subs []*subject) {
 
 // raceSubjects runs the concurrent driver on every non-deep subject of the list.
 func raceSubjects(c *eng.Ctx, cc caseCfg, subs []*subject) {
-	c.Sample(map[string]any{"group": cc.Group, "params": cc.P, "race": cc.Race, "subjects": len(subs)})
+	c.Sample(map[string]any{"group": cc.Group, "params": cc.P.sample(), "race": cc.Race, "subjects": len(subs), "variant": cc.Var})
 	for _, s := range subs {
 		s := s
 		if s.Deep {
@@ -308,7 +308,7 @@ func enumerate(r *eng.Rand, thorough bool, add func(group string, ps pset, varia
 	}
 	bgvCfgs := []sc{
 		{"bgvA", 6, "", []int{45, 40, 40, 40}, []int{50, 50}, 65537, 0, 0},
-		{"bgvGap", 7, "", []int{45, 40, 40}, []int{50}, 257, 0, 0},
+		{"bgvGap", 7, "", []int{45, 40, 40}, []int{50}, 97, 0, 0},
 		{"bgvNoP", 5, "", []int{50, 40, 40}, nil, 65537, 0, 12},
 	}
 	ckksCfgs := []sc{
@@ -378,6 +378,10 @@ func enumerate(r *eng.Rand, thorough bool, add func(group string, ps pset, varia
 			po.T = 65537
 			add("mpbgv", ps, "n2-out-short", &po)
 		}
+	}
+	if ps, ok := mk("mpbgvGap", 6, "", []int{55, 45}, []int{55}); ok {
+		ps.T = 97 // plaintext ring of degree 16 inside a ciphertext ring of degree 64
+		add("mpbgv", ps, "n2", nil)
 	}
 	if ps, ok := mk("mpckksA", 5, "", []int{55, 45, 45, 45, 45}, []int{55}); ok {
 		ps.LogScale = 40
@@ -461,9 +465,23 @@ func enumerateRandom(r *eng.Rand, thorough bool, add func(group string, ps pset,
 	n := 12
 	maxLogN := 8
 	if thorough {
-		n, maxLogN = 60, 10
+		n, maxLogN = 96, 10
 	}
 	pick := func(xs ...int) int { return eng.Pick(r, xs...) }
+	// goroutines / GOMAXPROCS / repetitions of the concurrent variants
+	gsOf := func() int {
+		if thorough {
+			return pick(2, 3, 4, 6, 8, 12, 16)
+		}
+		return pick(2, 3, 4, 6, 8)
+	}
+	repsOf := func() int {
+		if thorough {
+			return 2
+		}
+		return 1
+	}
+	every := func(i, k, off int) bool { return thorough || i%k == off }
 	bitsN := func(k int, xs ...int) []int {
 		o := make([]int, k)
 		for i := range o {
@@ -508,6 +526,10 @@ func enumerateRandom(r *eng.Rand, thorough bool, add func(group string, ps pset,
 			if ps, ok := mkPset(r, fmt.Sprintf("rnd%d-ring", i), logN, ringT, qb, pb); ok {
 				add("ring", ps, "", nil)
 				add("samplers", ps, "", nil)
+				if every(i, 6, 3) {
+					ps.Name += "-race"
+					addRace("ring", ps, "", nil, 16, 16, repsOf())
+				}
 			}
 		}
 		// rlwe layer
@@ -530,9 +552,12 @@ func enumerateRandom(r *eng.Rand, thorough bool, add func(group string, ps pset,
 				add("rlwe-encdec", ps, "", nil)
 				add("rlwe-eval", ps, "", nil)
 				add("rlwe-deep", ps, "", nil)
-				if i%2 == 0 && logN <= 7 {
+				if every(i, 2, 0) && logN <= 8 {
 					ps.Name += "-race"
-					addRace("rlwe-eval", ps, "", nil, pick(2, 3, 4, 6), pick(2, 4, 16), 1)
+					addRace("rlwe-eval", ps, "", nil, gsOf(), pick(2, 4, 16), repsOf())
+					if every(i, 4, 0) {
+						addRace("rlwe-encdec", ps, "", nil, gsOf(), pick(2, 4, 16), repsOf())
+					}
 				}
 			}
 		}
@@ -548,9 +573,9 @@ func enumerateRandom(r *eng.Rand, thorough bool, add func(group string, ps pset,
 				}
 				ps.T = eng.Pick(r, uint64(65537), 65537, 257, 97, 786433)
 				add("bgv", ps, "", nil)
-				if i%3 == 0 && logN <= 7 {
+				if every(i, 3, 0) && logN <= 8 {
 					ps.Name += "-race"
-					addRace("bgv", ps, "", nil, pick(2, 3, 4), pick(2, 4, 16), 1)
+					addRace("bgv", ps, "", nil, gsOf(), pick(2, 4, 16), repsOf())
 				}
 			}
 		}
@@ -567,9 +592,9 @@ func enumerateRandom(r *eng.Rand, thorough bool, add func(group string, ps pset,
 				}
 				ps.LogScale = ls
 				add("ckks", ps, "", nil)
-				if i%2 == 1 && logN <= 7 {
+				if every(i, 2, 1) && logN <= 8 {
 					ps.Name += "-race"
-					addRace("ckks", ps, "", nil, pick(2, 4, 5), pick(2, 4, 16), 1)
+					addRace("ckks", ps, "", nil, gsOf(), pick(2, 4, 16), repsOf())
 				}
 			}
 		}
@@ -584,6 +609,10 @@ func enumerateRandom(r *eng.Rand, thorough bool, add func(group string, ps pset,
 					ps.Pow2 = pick(8, 10, 12)
 				}
 				add("rgsw", ps, "", nil)
+				if every(i, 6, 2) {
+					ps.Name += "-race"
+					addRace("rgsw", ps, "", nil, gsOf(), pick(2, 4, 16), repsOf())
+				}
 			}
 		}
 		// multiparty key generation and key switching
@@ -597,9 +626,9 @@ func enumerateRandom(r *eng.Rand, thorough bool, add func(group string, ps pset,
 				ps.Xs = eng.Pick(r, "", "h")
 				np := 1 + r.N(5)
 				add("mp", ps, fmt.Sprintf("n%d", np), nil)
-				if i%4 == 1 {
+				if every(i, 4, 1) {
 					ps.Name += "-race"
-					addRace("mp", ps, fmt.Sprintf("n%d", np), nil, pick(2, 4, 8), pick(2, 4, 16), 1)
+					addRace("mp", ps, fmt.Sprintf("n%d", np), nil, gsOf(), pick(2, 4, 16), repsOf())
 				}
 			}
 		}
@@ -613,6 +642,11 @@ func enumerateRandom(r *eng.Rand, thorough bool, add func(group string, ps pset,
 				np := 1 + r.N(4)
 				if i%2 == 0 {
 					add("mpbgv", ps, fmt.Sprintf("n%d", np), nil)
+					if every(i, 6, 4) {
+						pr := ps
+						pr.Name += "-race"
+						addRace("mpbgv", pr, fmt.Sprintf("n%d", np), nil, gsOf(), pick(2, 4, 16), 1)
+					}
 				} else {
 					// never longer than the input chain here: the longer case is the known defect, judged by its own case
 					k := 1 + r.N(len(qb))
@@ -632,7 +666,12 @@ func enumerateRandom(r *eng.Rand, thorough bool, add func(group string, ps pset,
 			ps, ok := mkPset(r, fmt.Sprintf("rnd%d-mpckks", i), logN, eng.Pick(r, "", "", "ci"), qb, pBits(qb, r.N(2)))
 			if ok {
 				ps.LogScale = ls
-				add("mpckks", ps, fmt.Sprintf("n%d", 1+r.N(3)), nil)
+				np := 1 + r.N(3)
+				add("mpckks", ps, fmt.Sprintf("n%d", np), nil)
+				if every(i, 6, 5) {
+					ps.Name += "-race"
+					addRace("mpckks", ps, fmt.Sprintf("n%d", np), nil, gsOf(), pick(2, 4, 16), 1)
+				}
 			}
 		}
 	}
